@@ -194,7 +194,7 @@ func TestExhaustiveSmallScope(t *testing.T) {
 		h := rx.Compile(rl, time.Second, true)
 		lists++
 		for _, sc := range scheds {
-			for _, end := range []hx.EndMode{hx.EndEOF, hx.EndSilentVirtual} {
+			for _, end := range []hx.EndMode{hx.EndEOF, hx.EndSilentVirtual, hx.EndEOFWithData} {
 				if !runAndCheck(t, top, h, sc, end, "exhaustive") {
 					return
 				}
@@ -202,7 +202,7 @@ func TestExhaustiveSmallScope(t *testing.T) {
 		}
 	}
 	hx.Class("C02/exhaustive-route-lists", int64(lists))
-	hx.Note("exhaustive scope: all %d^%d route lists (shard %d/%d) x all %d (stream, segmentation) pairs over {a,b} up to length %d x 2 end modes", len(atoms), nRoutes, shard, shards, len(scheds), maxLen)
+	hx.Note("exhaustive scope: all %d^%d route lists (shard %d/%d) x all %d (stream, segmentation) pairs over {a,b} up to length %d x 3 end modes", len(atoms), nRoutes, shard, shards, len(scheds), maxLen)
 }
 
 // ---------- random larger instances ----------
@@ -262,10 +262,7 @@ func TestRandomInstances(t *testing.T) {
 		for i := 1; i < len(cuts); i++ {
 			cuts[i] += cuts[i-1]
 		}
-		end := hx.EndEOF
-		if rapid.Bool().Draw(rt, "silent") {
-			end = hx.EndSilentVirtual
-		}
+		end := []hx.EndMode{hx.EndEOF, hx.EndSilentVirtual, hx.EndEOFWithData}[rapid.IntRange(0, 2).Draw(rt, "endMode")]
 		rl, err := rx.Routes(rx.BareCtx(), ToRoutes(top, ""))
 		if err != nil {
 			rt.Fatalf("provision %s: %v", ListString(top), err)
@@ -302,6 +299,12 @@ func TestReplay(t *testing.T) {
 			[]RS{{Chain: []HS{{Kind: HSub, Sub: []RS{{Sets: []MSet{{Ms: []MS{need(2, 1, 'x', false)}}}, Chain: term}}}, {Kind: HTake, K: 1}}},
 				{Sets: []MSet{{Ms: []MS{need(1, 0, 'b', false)}, Not: true}}, Chain: term}},
 			[]string{"a", "b", "c"}, hx.EndSilentVirtual},
+		{"end of stream reported by the read that returns the last bytes: the bytes still count (fixed by bc24f37)",
+			[]RS{{Sets: []MSet{{Ms: []MS{need(1, 0, 'a', false)}}}, Chain: term}},
+			[]string{"a"}, hx.EndEOFWithData},
+		{"the same when no route matches: the fallback gets the stream",
+			[]RS{{Sets: []MSet{{Ms: []MS{need(2, 1, 'b', false)}}}, Chain: term}},
+			[]string{"a", "a"}, hx.EndEOFWithData},
 	}
 	for _, c := range cases {
 		rl, err := rx.Routes(rx.BareCtx(), ToRoutes(c.top, ""))
